@@ -7,10 +7,14 @@
 //	op     = <G|H>|<act>;<act>;...        G = GET, H = HEAD
 //	act    = a:<hexkey>:<hexval>          w.Header()[key] = append(w.Header()[key], val)   (raw key, no canonicalisation)
 //	         s:<code>                     w.WriteHeader(code)
+//	         A:<hexkey>:<hexbyte>:<n>     the same with a value of n copies of the byte (large header / trailer blocks)
 //	         w:<hexbyte>:<n>              w.Write(n copies of the byte)
 //	         f                            w.Flush()
 //	result = <frame>/<frame>/...|<write results>
-//	frame  = H<+|->:<hexname>=<hexvalue>,...      HEADERS (+ = END_STREAM)
+//	frame  = H<+|->[<wire>]:<hexname>=<hexvalue>,...   a header block (+ = END_STREAM on its HEADERS frame);
+//	         <wire> = the frames that carried it, joined by ".": h|c (HEADERS|CONTINUATION), S|- END_STREAM flag,
+//	         E|- END_HEADERS flag, fragment length — e.g. hS-16384.c-E20; field values longer than 64 bytes are
+//	         printed run-length encoded as *<rle>
 //	         D<+|->:<hexbyte>*<n>.<hexbyte>*<n>   DATA, run-length encoded payload
 //	         R:<code>  RST_STREAM      G:<code>  GOAWAY     E:<text>  client-side decode error
 //	write results: per w action  <n> | b (ErrBodyNotAllowed) | c (more than declared Content-Length) | e (other error);
@@ -60,6 +64,14 @@ func parseOp(op string) (head bool, acts []action, ok bool) {
 				return false, nil, false
 			}
 			acts = append(acts, action{kind: 'a', k: string(k), v: string(v)})
+		case f[0] == "A" && len(f) == 4:
+			k, ok1 := vh.UnHex(f[1])
+			b, ok2 := vh.UnHex(f[2])
+			n, err := strconv.Atoi(f[3])
+			if !ok1 || !ok2 || len(b) != 1 || err != nil || n < 0 || n > 1<<17 {
+				return false, nil, false
+			}
+			acts = append(acts, action{kind: 'a', k: string(k), v: strings.Repeat(string(b), n)})
 		case f[0] == "s" && len(f) == 2:
 			n, err := strconv.Atoi(f[1])
 			if err != nil {
@@ -149,7 +161,47 @@ func run(head bool, acts []action) string {
 	// reader
 	go func() {
 		fr := bfe_http2.NewFramer(nil, c1)
-		fr.ReadMetaHeaders = hpack.NewDecoder(4096, nil)
+		fr.SetMaxReadFrameSize(1 << 20)
+		var fields []hpack.HeaderField
+		dec := hpack.NewDecoder(4096, func(hf hpack.HeaderField) error { fields = append(fields, hf); return nil })
+		var wire []string
+		var block []byte
+		blockES := false
+		finish := func() {
+			fields = nil
+			if _, err := dec.Write(block); err != nil || dec.Close() != nil {
+				evc <- ev{s: "E:hpack", fatal: true}
+			}
+			var fs []string
+			for _, hf := range fields {
+				v := hf.Value
+				if hf.Name == "date" {
+					if _, err := time.Parse(http.TimeFormat, v); err == nil {
+						v = "@"
+					}
+				}
+				if hf.Name == "content-type" && v != "x/y" && v != "t/h" && v != "" {
+					v = "@" // sniffed by http.DetectContentType (the scripts only use x/y, t/h and the empty value)
+				}
+				hv := vh.Hex([]byte(v))
+				if len(v) > 64 {
+					hv = "*" + rle([]byte(v))
+				}
+				fs = append(fs, vh.Hex([]byte(hf.Name))+"="+hv)
+			}
+			e := "-"
+			if blockES {
+				e = "+"
+			}
+			evc <- ev{s: "H" + e + "[" + strings.Join(wire, ".") + "]:" + strings.Join(fs, ",")}
+			wire, block = nil, nil
+		}
+		flag := func(b bool, c string) string {
+			if b {
+				return c
+			}
+			return "-"
+		}
 		for {
 			f, err := fr.ReadFrame()
 			if err != nil {
@@ -161,28 +213,27 @@ func run(head bool, acts []action) string {
 				return
 			}
 			switch f := f.(type) {
-			case *bfe_http2.MetaHeadersFrame:
+			case *bfe_http2.HeadersFrame:
 				if f.StreamID != 1 {
 					continue
 				}
-				var fs []string
-				for _, hf := range f.Fields {
-					v := hf.Value
-					if hf.Name == "date" {
-						if _, err := time.Parse(http.TimeFormat, v); err == nil {
-							v = "@"
-						}
-					}
-					if hf.Name == "content-type" && v != "x/y" && v != "t/h" && v != "" {
-						v = "@" // sniffed by http.DetectContentType (the scripts only use x/y, t/h and the empty value)
-					}
-					fs = append(fs, vh.Hex([]byte(hf.Name))+"="+vh.Hex([]byte(v)))
+				frag := f.HeaderBlockFragment()
+				wire = append(wire, "h"+flag(f.StreamEnded(), "S")+flag(f.HeadersEnded(), "E")+strconv.Itoa(len(frag)))
+				block = append(block, frag...)
+				blockES = f.StreamEnded()
+				if f.HeadersEnded() {
+					finish()
 				}
-				e := "-"
-				if f.StreamEnded() {
-					e = "+"
+			case *bfe_http2.ContinuationFrame:
+				if f.StreamID != 1 {
+					continue
 				}
-				evc <- ev{s: "H" + e + ":" + strings.Join(fs, ",")}
+				frag := f.HeaderBlockFragment()
+				wire = append(wire, "c"+flag(f.Header().Flags.Has(bfe_http2.FlagDataEndStream), "S")+flag(f.HeadersEnded(), "E")+strconv.Itoa(len(frag)))
+				block = append(block, frag...)
+				if f.HeadersEnded() {
+					finish()
+				}
 			case *bfe_http2.DataFrame:
 				if f.StreamID != 1 {
 					continue
@@ -361,7 +412,63 @@ func genWrite(r *vh.Rand) string {
 	return fmt.Sprintf("w:%02x:%d", b, n)
 }
 
+// genBig: a response whose header block (or trailer block) is around one or two 16384-byte frames.
+func genBig(r *vh.Rand) string {
+	m := "G"
+	if r.Chance(1, 4) {
+		m = "H"
+	}
+	target := r.Pick("16384", "16384", "32768", "20000", "40000", "8000")
+	t, _ := strconv.Atoi(target)
+	t += r.Range(-140, 60) // the fixed fields and the per-field overhead put the block on either side of the boundary
+	var acts []string
+	bigs := func(keys []string) {
+		left := t
+		for i, k := range keys {
+			n := left / (len(keys) - i)
+			if i < len(keys)-1 {
+				n = r.Range(n/2, n)
+			}
+			if n > 16000 && r.Chance(1, 2) {
+				n = 16000
+			}
+			left -= n + 4
+			acts = append(acts, fmt.Sprintf("A:%s:%s:%d", hx(k), r.Pick("fe", "ff", "e9", "80"), n)) // bytes that Huffman coding does not shrink
+		}
+	}
+	keysH := [][]string{{"X-A"}, {"X-A", "X-Custom"}, {"X-A", "X-Custom", "Server", "x-b", "X-T3"}}[r.Intn(3)]
+	trailers := r.Chance(1, 3) && m == "G"
+	if trailers {
+		acts = append(acts, "a:"+hx("Trailer")+":"+hx("X-T1, X-T2"))
+		if r.Chance(1, 3) {
+			bigs(keysH) // big header block as well
+		}
+		if r.Chance(1, 2) {
+			acts = append(acts, genWrite(r))
+		}
+		acts = append(acts, "f")
+		keysH = [][]string{{"X-T1"}, {"X-T1", "X-T2"}}[r.Intn(2)]
+		bigs(keysH)
+		return m + "|" + strings.Join(acts, ";")
+	}
+	bigs(keysH)
+	switch r.Intn(6) {
+	case 0:
+		acts = append(acts, "s:204")
+	case 1:
+		acts = append(acts, "s:304")
+	case 2:
+		acts = append(acts, genWrite(r))
+	case 3:
+		acts = append(acts, "f", genWrite(r))
+	}
+	return m + "|" + strings.Join(acts, ";")
+}
+
 func gen(r *vh.Rand) string {
+	if r.Chance(1, 8) {
+		return genBig(r)
+	}
 	m := "G"
 	if r.Chance(1, 5) {
 		m = "H"
@@ -393,6 +500,24 @@ func gen(r *vh.Rand) string {
 	return m + "|" + strings.Join(acts, ";")
 }
 
+// pre: sweep the block length across the 16384 / 32768 frame boundaries byte by byte, for a header block that
+// ends the stream (no body, HEAD, 204) and for a trailer block.
+func pre(emit func(op string), thorough bool) {
+	xa, t1 := hx("X-A"), hx("X-T1")
+	for _, base := range []int{16384, 32768} {
+		for n := base - 75; n <= base+5; n++ {
+			emit(fmt.Sprintf("G|A:%s:fe:%d", xa, n))
+			emit(fmt.Sprintf("G|a:%s:%s;w:61:3;f;A:%s:fe:%d", hx("Trailer"), t1, t1, n))
+			if n%4 == 0 || thorough {
+				emit(fmt.Sprintf("H|A:%s:fe:%d", xa, n))
+				emit(fmt.Sprintf("G|A:%s:fe:%d;s:204", xa, n))
+				emit(fmt.Sprintf("G|A:%s:fe:%d;w:61:5", xa, n))
+			}
+		}
+	}
+}
+
 func main() {
+	vh.Pre = pre
 	vh.Main(gen, func(op string) string { return vh.SafeTimeout(30*time.Second, func() string { return exec(op) }) })
 }
